@@ -3,8 +3,8 @@ use itertools::Itertools;
 use ordermap::OrderSet;
 use samlang_ast::{
   hir::{
-    ClosureTypeDefinition, FunctionType, IdType, Type, TypeDefinition, TypeDefinitionMappings,
-    TypeName,
+    Callee, ClosureTypeDefinition, Expression, FunctionNameExpression, FunctionType, IdType,
+    Statement, Type, TypeDefinition, TypeDefinitionMappings, TypeName,
   },
   source,
 };
@@ -114,6 +114,155 @@ pub(super) fn collect_used_generic_types(
     collect_used_generic_types_visitor(t, generic_types, &mut collector);
   }
   collect_used_generic_types_visitor(&function_type.return_type, generic_types, &mut collector);
+  collector
+}
+
+fn collect_used_generic_types_in_expression(
+  expression: &Expression,
+  generic_types: &OrderSet<PStr>,
+  collector: &mut OrderSet<PStr>,
+) {
+  if let Expression::Variable(v) = expression {
+    collect_used_generic_types_visitor(&v.type_, generic_types, collector);
+  }
+}
+
+fn collect_used_generic_types_in_id_type(
+  id_type: &IdType,
+  generic_types: &OrderSet<PStr>,
+  collector: &mut OrderSet<PStr>,
+) {
+  for t in id_type.type_arguments.iter() {
+    collect_used_generic_types_visitor(t, generic_types, collector);
+  }
+}
+
+fn collect_used_generic_types_in_function_name(
+  FunctionNameExpression { name, type_, type_arguments }: &FunctionNameExpression,
+  generic_types: &OrderSet<PStr>,
+  collector: &mut OrderSet<PStr>,
+) {
+  if name.type_name.module_reference.is_none() && generic_types.contains(&name.type_name.type_name)
+  {
+    collector.insert(name.type_name.type_name);
+  }
+  collector.extend(collect_used_generic_types(type_, generic_types));
+  for t in type_arguments {
+    collect_used_generic_types_visitor(t, generic_types, collector);
+  }
+}
+
+fn collect_used_generic_types_in_final_assignments(
+  final_assignments: &[(PStr, Type, Expression, Expression)],
+  generic_types: &OrderSet<PStr>,
+  collector: &mut OrderSet<PStr>,
+) {
+  for (_, t, e1, e2) in final_assignments {
+    collect_used_generic_types_visitor(t, generic_types, collector);
+    collect_used_generic_types_in_expression(e1, generic_types, collector);
+    collect_used_generic_types_in_expression(e2, generic_types, collector);
+  }
+}
+
+fn collect_used_generic_types_in_statements(
+  statements: &[Statement],
+  generic_types: &OrderSet<PStr>,
+  collector: &mut OrderSet<PStr>,
+) {
+  for statement in statements {
+    match statement {
+      Statement::Not { name: _, operand } => {
+        collect_used_generic_types_in_expression(operand, generic_types, collector);
+      }
+      Statement::Binary { name: _, operator: _, e1, e2 } => {
+        collect_used_generic_types_in_expression(e1, generic_types, collector);
+        collect_used_generic_types_in_expression(e2, generic_types, collector);
+      }
+      Statement::IndexedAccess { name: _, type_, pointer_expression, index: _ } => {
+        collect_used_generic_types_visitor(type_, generic_types, collector);
+        collect_used_generic_types_in_expression(pointer_expression, generic_types, collector);
+      }
+      Statement::Call { callee, arguments, return_type, return_collector: _ } => {
+        match callee {
+          Callee::FunctionName(f) => {
+            collect_used_generic_types_in_function_name(f, generic_types, collector);
+          }
+          Callee::Variable(v) => {
+            collect_used_generic_types_visitor(&v.type_, generic_types, collector);
+          }
+        }
+        for e in arguments {
+          collect_used_generic_types_in_expression(e, generic_types, collector);
+        }
+        collect_used_generic_types_visitor(return_type, generic_types, collector);
+      }
+      Statement::ConditionalDestructure {
+        test_expr,
+        tag: _,
+        bindings,
+        s1,
+        s2,
+        final_assignments,
+      } => {
+        collect_used_generic_types_in_expression(test_expr, generic_types, collector);
+        for (_, t) in bindings.iter().flatten() {
+          collect_used_generic_types_visitor(t, generic_types, collector);
+        }
+        collect_used_generic_types_in_statements(s1, generic_types, collector);
+        collect_used_generic_types_in_statements(s2, generic_types, collector);
+        collect_used_generic_types_in_final_assignments(
+          final_assignments,
+          generic_types,
+          collector,
+        );
+      }
+      Statement::IfElse { condition, s1, s2, final_assignments } => {
+        collect_used_generic_types_in_expression(condition, generic_types, collector);
+        collect_used_generic_types_in_statements(s1, generic_types, collector);
+        collect_used_generic_types_in_statements(s2, generic_types, collector);
+        collect_used_generic_types_in_final_assignments(
+          final_assignments,
+          generic_types,
+          collector,
+        );
+      }
+      Statement::LateInitDeclaration { name: _, type_ } => {
+        collect_used_generic_types_visitor(type_, generic_types, collector);
+      }
+      Statement::LateInitAssignment { name: _, assigned_expression } => {
+        collect_used_generic_types_in_expression(assigned_expression, generic_types, collector);
+      }
+      Statement::StructInit { struct_variable_name: _, type_, expression_list } => {
+        collect_used_generic_types_in_id_type(type_, generic_types, collector);
+        for e in expression_list {
+          collect_used_generic_types_in_expression(e, generic_types, collector);
+        }
+      }
+      Statement::EnumInit { enum_variable_name: _, enum_type, tag: _, associated_data_list } => {
+        collect_used_generic_types_in_id_type(enum_type, generic_types, collector);
+        for e in associated_data_list {
+          collect_used_generic_types_in_expression(e, generic_types, collector);
+        }
+      }
+      Statement::ClosureInit { closure_variable_name: _, closure_type, function_name, context } => {
+        collect_used_generic_types_in_id_type(closure_type, generic_types, collector);
+        collect_used_generic_types_in_function_name(function_name, generic_types, collector);
+        collect_used_generic_types_in_expression(context, generic_types, collector);
+      }
+    }
+  }
+}
+
+/// Collects the generic types mentioned anywhere in a function body. Every one of them needs to be
+/// a type parameter of the function, so that it is bound when the function is specialized.
+pub(super) fn collect_used_generic_types_in_body(
+  statements: &[Statement],
+  return_value: &Expression,
+  generic_types: &OrderSet<PStr>,
+) -> OrderSet<PStr> {
+  let mut collector = OrderSet::new();
+  collect_used_generic_types_in_statements(statements, generic_types, &mut collector);
+  collect_used_generic_types_in_expression(return_value, generic_types, &mut collector);
   collector
 }
 
